@@ -271,6 +271,8 @@ impl Context {
             final(h).wf() && fwd(*old(h), *final(h)),
             //# U-undo-rejects-completed
             st_terminal(old(h).st(task.id@)) ==> ret is Err && *final(h) == *old(h),
+            //# U-an-accepted-undo-closes-the-task-itself-as-completed [C05]
+            ret is Ok ==> final(h).st(task.id@) is Completed,
 //@@ loop 1
         invariant
             //# frontier-ok
@@ -1142,9 +1144,14 @@ impl ActTask for Arc<Task> {
                 assert(old(h).st(old(h).cur) is Ready);
             }
 //@@ end
-//@@ extract file=acts/src/scheduler/process/task.rs in="impl ActTask for Arc<Task>" item="fn next" name=Arc<Task>::next props=C02,C01,C03
+//@@ extract file=acts/src/scheduler/process/task.rs in="impl ActTask for Arc<Task>" item="fn next" name=Arc<Task>::next props=C02,C01,C03,C08
 //@@ opt traitpost attr="#[verifier::exec_allows_no_decreases_clause]"
 //@@ rw R7 `& parent . clone ( )` => `&parent`
+//@@ proof before=emit_task#1
+            proof {
+                //# M6-after-next-only-a-task-that-has-ended-is-reported [C08]
+                assert(st_terminal(h.st(self.id@)));
+            }
 //@@ end
 //@@ extract file=acts/src/scheduler/process/task.rs in="impl ActTask for Arc<Task>" item="fn review" name=Arc<Task>::review props=C02,C03,C08
 //@@ opt traitpost attr="#[verifier::exec_allows_no_decreases_clause]"
